@@ -20,7 +20,7 @@ def cross_backend(pid, tier, seed, workdir, stats):
     """Same operation sequences (layout-independent ops) on the SSE2 and the portable build must give the same
     return values, lengths and contents."""
     n = 2500 if tier == "thorough" else 150
-    for profile in ("churn", "grow", "xback"):
+    for profile in ("churn", "grow", "xback", "xback-table"):
         prefix = os.path.join(workdir, "x-" + profile)
         full = dict(core.ENV, HBV_FULL_DUMP="1")
         rc, out = core.sh([core.hbv("sse2"), "gen", profile, str(gen_seed(seed, 5)), str(n), prefix], env=full, timeout=core.batch_timeout(tier))
